@@ -14,6 +14,12 @@
 //! the reference finds them inside the quantifier, otherwise like `term`), `accbig` / `nsymbig` (the same two
 //! constructions at n = 9..40: must succeed; residual judged exactly, the eigenvalue by exact inertia counts in the
 //! symmetric case).
+//! Hardening 4: `accw` (symmetric Q D Qᵀ with eigenvalues of BOTH signs, gap <= 1/2, and the all-ones start vector
+//! 60..89 degrees away from the dominant eigenvector — "not orthogonal", which is all the statement asks: must succeed,
+//! judged by the same exact accuracy oracle.  The Rayleigh quotients of such a matrix start with the sign of the
+//! sub-dominant eigenvalues and CROSS ZERO on their way to the dominant one; half of the family is tuned — by bisection
+//! on the angle with a binary64 replica of the documented iteration — so that the two quotients next to the crossing
+//! are equal in magnitude to a relative 1e-3..1e-14).
 //!
 //! Verdicts decided here for every half: outcome kind, shape of v; whenever an eigenpair is returned it is finite
 //! and its largest component is exactly 1 (no `Ok(NaN)`); every container type the entry point accepts
@@ -107,6 +113,32 @@ fn other_containers(h: usize, w: usize, v: &[f64], es: f64) -> Vec<(&'static str
     if h == 0 && w != 0 {
         return out;
     }
+    // the same numbers as an `Arr2D<f64>` with another history: `from_flat` of a short slice (padded with NaN, then
+    // overwritten), a single row reshaped, `clone_from` into a larger object, transposed twice
+    if h * w > 0 {
+        if let Ok(mut a) = Arr2D::from_flat(&v[..(h * w) / 2], f64::NAN, h, w) {
+            for i in 0..h {
+                for j in 0..w {
+                    a[(i, j)] = v[i * w + j];
+                }
+            }
+            out.push(("&Arr2D<f64> (from_flat of a short slice, padded, then filled)", observe(&call(move || power_method(&a, es)))));
+        }
+        if let Ok(mut a) = Arr2D::from_flat(v, f64::NAN, 1, h * w) {
+            if a.reshape(h).is_ok() {
+                out.push(("&Arr2D<f64> (one row reshaped)", observe(&call(move || power_method(&a, es)))));
+            }
+        }
+    }
+    {
+        let src = to_arr(h, w, v);
+        let mut big = Arr2D::full(f64::NAN, h + 3, w + 2);
+        big.clone_from(&src);
+        let mut t = src.transpose();
+        t.transpose_mut();
+        out.push(("&Arr2D<f64> (clone_from into a larger object)", observe(&call(move || power_method(&big, es)))));
+        out.push(("&Arr2D<f64> (transpose, then transpose_mut)", observe(&call(move || power_method(&t, es)))));
+    }
     let vv = rows_of(h, w, v);
     let owned = vv.clone();
     out.push(("Vec<Vec<f64>>", observe(&call(move || power_method(owned, es)))));
@@ -139,6 +171,51 @@ fn other_containers(h: usize, w: usize, v: &[f64], es: f64) -> Vec<(&'static str
         out.push(("&Arr2D<f32>", observe(&call(move || power_method(&a, es)))));
     }
     out
+}
+
+/// degenerate shapes that only exist as `&Arr2D`: N empty rows (N x 0, from an array of empty arrays or from nested
+/// empty vectors) and their transposes (0 x N, by `transpose` and by `transpose_mut`).  Each must be refused.
+fn empty_forms_verdict(h: usize, w: usize, es: f64) -> Result<(), String> {
+    let n = h.max(w);
+    if h.min(w) != 0 || n == 0 {
+        return Ok(());
+    }
+    macro_rules! rows {
+        ($($k:literal),*) => {
+            match n {
+                $($k => Some(Arr2D::from(&[[0f64; 0]; $k])),)*
+                _ => None,
+            }
+        };
+    }
+    let mut forms: Vec<(&'static str, Arr2D<f64>)> = Vec::new();
+    if let Some(a) = rows!(1, 2, 3, 4, 5, 6, 7, 8) {
+        forms.push(("an array of N empty arrays", a));
+    }
+    if let Ok(a) = Arr2D::try_from(vec![Vec::<f64>::new(); n]) {
+        forms.push(("N empty nested vectors", a));
+    }
+    if h == 0 {
+        let mut flat = Vec::new();
+        for (_, a) in forms {
+            flat.push(("N empty rows, transposed", a.transpose()));
+            let mut b = a.clone();
+            b.transpose_mut();
+            flat.push(("N empty rows, transpose_mut", b));
+        }
+        forms = flat;
+    }
+    for (name, a) in forms {
+        if (a.height, a.width) != (h, w) {
+            return Err(format!("harness: the form `{name}` has shape {}x{}, expected {h}x{w}", a.height, a.width));
+        }
+        match catch(|| power_method(&a, es)) {
+            Some(Err(_)) => {}
+            Some(Ok(_)) => return Err(format!("{h}x{w} input built as `{name}` accepted")),
+            None => return Err(format!("{h}x{w} input built as `{name}`: panic")),
+        }
+    }
+    Ok(())
 }
 
 /// ragged nested vectors: every row-length tuple in 0..=2·rows−1 over 2 and 3 rows, and over 4 rows every tuple that
@@ -204,7 +281,7 @@ pub fn run(line: &str) -> Obs {
     let (h, w, v) = t.mat_f64();
     let es = t.f64();
     let square = h == w && h > 0;
-    let must_succeed = matches!(half.as_str(), "acc" | "accbig" | "nsym" | "nsymbig");
+    let must_succeed = matches!(half.as_str(), "acc" | "accw" | "accbig" | "nsym" | "nsymbig");
     let a = to_arr(h, w, &v);
     let r = call(move || power_method(&a, es));
     let obs = observe(&r);
@@ -260,7 +337,7 @@ pub fn run(line: &str) -> Obs {
         }
     }
     if verdict.is_ok() && half == "shape" {
-        verdict = ragged_verdict(&v, es);
+        verdict = empty_forms_verdict(h, w, es).and_then(|_| ragged_verdict(&v, es));
     }
     Obs::with(obs, verdict)
 }
@@ -320,6 +397,11 @@ fn qdqt(n: usize, q: &[f64], d: &[f64]) -> Vec<f64> {
 /// symmetric matrix with dominant eigenvalue `l1` (either sign), all others of modulus <= gap*|l1|,
 /// and the all-ones vector at an angle of cosine >= 0.3 to the dominant eigenvector
 fn accuracy_case(rng: &mut Rng, n: usize) -> Vec<f64> {
+    accuracy_case_with(rng, n, None)
+}
+
+/// `special`: (dominant eigenvalue, gap) given by the caller
+fn accuracy_case_with(rng: &mut Rng, n: usize, special: Option<(f64, f64)>) -> Vec<f64> {
     loop {
         let q = random_orthogonal(rng, n);
         let mut c = 0.0;
@@ -340,12 +422,18 @@ fn accuracy_case(rng: &mut Rng, n: usize) -> Vec<f64> {
             5 => 2f64.powi(rng.range(-400, 400) as i32) * rng.uniform(0.5, 2.0),
             _ => rng.uniform(0.5, 20.0),
         };
-        let l1 = if rng.chance(1, 2) { -mag } else { mag };
-        let gap = match rng.below(3) {
+        let mut l1 = if rng.chance(1, 2) { -mag } else { mag };
+        let mut gap = match rng.below(3) {
             0 => 0.49,
             1 => rng.uniform(0.0, 0.49),
             _ => rng.uniform(0.3, 0.49),
         };
+        let mut mag = mag;
+        if let Some((l, g)) = special {
+            l1 = l;
+            mag = l.abs();
+            gap = g;
+        }
         let mut d = vec![l1; n];
         for k in 1..n {
             d[k] = match rng.below(5) {
@@ -721,6 +809,283 @@ fn hardening(rng: &mut Rng, thorough: bool, emit: &mut dyn FnMut(String)) {
     }
 }
 
+// ------------------------------------------------------------------ hardening 4: wide angles, zero crossings
+
+/// the Rayleigh quotients of the first `k` passes of the documented method, in binary64 with the documented operation
+/// order (start at the ones vector, multiply, divide by the largest component — the smallest when none is positive —,
+/// quotient xᵀAx / xᵀx of the normalised iterate).  Used by the generator only, to FIND inputs (never to judge answers).
+fn rq_prefix(a: &[f64], n: usize, k: usize) -> Vec<f64> {
+    let mul = |v: &[f64]| -> Vec<f64> {
+        (0..n)
+            .map(|i| {
+                let mut s = 0.0;
+                for j in 0..n {
+                    s += a[i * n + j] * v[j];
+                }
+                s
+            })
+            .collect()
+    };
+    let norm = |v: &[f64]| -> f64 {
+        let m = v.iter().cloned().fold(f64::NEG_INFINITY, |p, q| if p > q { p } else { q });
+        if m > 0.0 { m } else { v.iter().cloned().fold(f64::INFINITY, |p, q| if p < q { p } else { q }) }
+    };
+    let mut ev = mul(&vec![1.0; n]);
+    let c = norm(&ev);
+    for x in ev.iter_mut() {
+        *x /= c;
+    }
+    let mut out = Vec::with_capacity(k);
+    for _ in 0..k {
+        let e2 = mul(&ev);
+        let c = norm(&e2);
+        let nv: Vec<f64> = e2.iter().map(|x| x / c).collect();
+        let av = mul(&nv);
+        let (mut num, mut den) = (0.0, 0.0);
+        for i in 0..n {
+            num += nv[i] * av[i];
+            den += nv[i] * nv[i];
+        }
+        out.push(num / den);
+        ev = nv;
+    }
+    out
+}
+
+/// a one-parameter family of symmetric matrices A(phi) = Q(phi) D Q(phi)ᵀ whose dominant eigenvector is at the angle
+/// phi to the all-ones vector: q1 = cos(phi) 1/√n + sin(phi) w with w a unit vector orthogonal to 1; Q = (Householder
+/// reflector taking e1 to q1) · diag(1, Q') with Q' random orthogonal
+struct WideFamily {
+    n: usize,
+    w: Vec<f64>,
+    qp: Vec<f64>,
+    d: Vec<f64>,
+}
+
+impl WideFamily {
+    /// eigenvalues: l1 = ±mag dominant; the second one of the OTHER sign (the quotients then start with that sign
+    /// when the start vector is far from q1); the rest of either sign; all of modulus <= gap·mag, gap <= 0.49
+    fn new(rng: &mut Rng, n: usize) -> WideFamily {
+        let w = loop {
+            let mut w: Vec<f64> = (0..n).map(|_| rng.uniform(-1.0, 1.0)).collect();
+            let m = w.iter().sum::<f64>() / n as f64;
+            for x in w.iter_mut() {
+                *x -= m;
+            }
+            let nr = w.iter().map(|x| x * x).sum::<f64>().sqrt();
+            if nr > 1e-2 {
+                for x in w.iter_mut() {
+                    *x /= nr;
+                }
+                break w;
+            }
+        };
+        let qp = random_orthogonal(rng, n - 1);
+        let mag = match rng.below(6) {
+            0 => 1.0,
+            1 => rng.uniform(0.5, 20.0),
+            2 => 2f64.powi(rng.range(-20, 20) as i32),
+            3 => rng.uniform(1e-3, 1e3),
+            4 => 2f64.powi(rng.range(-300, 300) as i32) * rng.uniform(0.5, 2.0),
+            _ => rng.range(1, 9) as f64,
+        };
+        let l1 = if rng.chance(1, 2) { -mag } else { mag };
+        let gap = match rng.below(3) {
+            0 => 0.49,
+            1 => rng.uniform(0.25, 0.49),
+            _ => rng.uniform(0.4, 0.49),
+        };
+        let other = -l1.signum();
+        let mut d = vec![l1; n];
+        for k in 1..n {
+            d[k] = if k == 1 || rng.chance(3, 5) {
+                other * mag * gap * if rng.chance(1, 2) { 1.0 } else { rng.uniform(0.2, 1.0) }
+            } else if rng.chance(1, 6) {
+                0.0
+            } else {
+                mag * rng.uniform(-gap, gap)
+            };
+        }
+        WideFamily { n, w, qp, d }
+    }
+
+    fn at(&self, phi: f64) -> Vec<f64> {
+        let n = self.n;
+        let e = 1.0 / (n as f64).sqrt();
+        let q1: Vec<f64> = self.w.iter().map(|x| phi.cos() * e + phi.sin() * x).collect();
+        let u: Vec<f64> = (0..n).map(|i| if i == 0 { 1.0 - q1[0] } else { -q1[i] }).collect();
+        let uu: f64 = u.iter().map(|x| x * x).sum();
+        let mut q = vec![0.0; n * n];
+        for i in 0..n {
+            for j in 0..n {
+                // (I − 2uuᵀ/uᵀu) · diag(1, Q')
+                let mut s = 0.0;
+                for k in 0..n {
+                    let h = (if i == k { 1.0 } else { 0.0 }) - if uu > 0.0 { 2.0 * u[i] * u[k] / uu } else { 0.0 };
+                    let b = if k == 0 || j == 0 {
+                        if k == j { 1.0 } else { 0.0 }
+                    } else {
+                        self.qp[(k - 1) * (n - 1) + (j - 1)]
+                    };
+                    s += h * b;
+                }
+                q[i * n + j] = s;
+            }
+        }
+        qdqt(n, &q, &self.d)
+    }
+}
+
+const WIDE_PASSES: usize = 6;
+
+/// an angle in 60..89 degrees at which the Rayleigh quotients of passes k−1 and k (k >= 1: the first pair the stopping
+/// test looks at is (0, 1)) have OPPOSITE signs and magnitudes equal to a relative `target` or better (`zero` = false),
+/// or at which the quotient of pass k is `target` times the one of pass k−1 or less — the sequence lands ON zero
+/// (`zero` = true): scan the angle in steps of a quarter degree for a sign change of g = r_k + r_{k−1} (or g = r_k),
+/// then bisect.  None when the family has no crossing there.
+fn crossing_tie(rng: &mut Rng, f: &WideFamily, target: f64, zero: bool) -> Option<(f64, f64)> {
+    let rq = |phi: f64| rq_prefix(&f.at(phi), f.n, WIDE_PASSES);
+    let g = |r: &[f64], k: usize| if zero { r[k] } else { r[k] + r[k - 1] };
+    let mut cands: Vec<(usize, f64, f64)> = Vec::new();
+    let mut prev: Option<(f64, Vec<f64>)> = None;
+    let mut deg = 60.0;
+    while deg <= 89.0 {
+        let r = rq(f64::to_radians(deg));
+        if let Some((pd, pr)) = &prev {
+            for k in 1..WIDE_PASSES {
+                if g(pr, k) * g(&r, k) < 0.0 && (zero || pr[k] * pr[k - 1] < 0.0 || r[k] * r[k - 1] < 0.0) {
+                    cands.push((k, *pd, deg));
+                }
+            }
+        }
+        prev = Some((deg, r));
+        deg += 0.25;
+    }
+    if cands.is_empty() {
+        return None;
+    }
+    let (k, lo, hi) = *rng.pick(&cands);
+    let (mut lo, mut hi) = (f64::to_radians(lo), f64::to_radians(hi));
+    let glo = g(&rq(lo), k);
+    let mut best: Option<(f64, f64)> = None; // (tie, angle)
+    for _ in 0..90 {
+        let mid = 0.5 * (lo + hi);
+        if mid == lo || mid == hi {
+            break;
+        }
+        let r = rq(mid);
+        let (usable, tie) = if zero {
+            (r[k - 1] != 0.0, (r[k] / r[k - 1]).abs())
+        } else {
+            (r[k] * r[k - 1] < 0.0, ((r[k].abs() - r[k - 1].abs()) / r[k]).abs())
+        };
+        if usable && best.map_or(true, |(t, _)| tie < t) {
+            best = Some((tie, mid));
+        }
+        if usable && tie <= target {
+            break;
+        }
+        if (g(&r, k) < 0.0) == (glo < 0.0) {
+            lo = mid;
+        } else {
+            hi = mid;
+        }
+    }
+    best
+}
+
+/// a number next to a "round" one: m (1 +- 2^-k), k = 20..50, for m a small integer, a power of two or ten, a half
+fn near_round(rng: &mut Rng) -> f64 {
+    let m = *rng.pick(&[1.0, 1.0, 2.0, 3.0, 4.0, 5.0, 7.0, 8.0, 10.0, 16.0, 100.0, 1000.0, 1e6, 0.5, 0.25, 1.5, 2.5]);
+    let k = rng.range(20, 50) as i32;
+    let x = m * (1.0 + if rng.chance(1, 2) { 1.0 } else { -1.0 } * 2f64.powi(-k));
+    if rng.chance(1, 2) { -x } else { x }
+}
+
+fn hardening4(rng: &mut Rng, thorough: bool, emit: &mut dyn FnMut(String)) {
+    // dominant eigenvalue next to (not at) a round number, gap at and next to the quantifier's limit 1/2; tight
+    // tolerances (a result snapped or rounded to the round number is then outside C tol)
+    for k in 0..(if thorough { 1600 } else { 48 }) {
+        let n = 1 + k % 8;
+        let l1 = if k % 4 == 3 { *rng.pick(&[1.0, -1.0, 2.0, -3.0, 10.0]) } else { near_round(rng) };
+        let gap = match rng.below(4) {
+            0 => 0.5,
+            1 => 0.5 * (1.0 - 2f64.powi(-(rng.range(20, 50) as i32))),
+            _ => rng.uniform(0.2, 0.49),
+        };
+        let a = accuracy_case_with(rng, n, Some((l1, gap)));
+        let es = *rng.pick(&[1e-12, 1e-12, 1e-11, 1e-10, 3e-12, 1e-9, 1e-8]);
+        emit_req(emit, "acc", n, n, &a, es);
+    }
+    // duplicates: symmetric matrices with repeated rows and columns (A_ij = B_{c(i) c(j)} for a small symmetric integer
+    // B and a map c with repeats) and rank-one u uᵀ with repeated values: the iterates have exactly equal components
+    // (ties for the largest one).  Judged for accuracy when the plug-in's reference finds them inside the quantifier.
+    for k in 0..(if thorough { 600 } else { 24 }) {
+        let n = 2 + k % 5;
+        let m = 1 + rng.below(3.min(n as u64 - 1)) as usize;
+        let mut b = vec![0.0; m * m];
+        for i in 0..m {
+            for j in 0..=i {
+                let x = if i == j { rng.range(-9, 9) } else { rng.range(-4, 4) } as f64;
+                b[i * m + j] = x;
+                b[j * m + i] = x;
+            }
+        }
+        let c: Vec<usize> = (0..n).map(|i| if i < m { i } else { rng.below(m as u64) as usize }).collect();
+        let mut a = vec![0.0; n * n];
+        for i in 0..n {
+            for j in 0..n {
+                a[i * n + j] = b[c[i] * m + c[j]];
+            }
+        }
+        let es = tolerance(rng);
+        emit_req(emit, "sym", n, n, &a, es);
+    }
+    // mixed-sign spectra, start vector 60..89 degrees from the dominant eigenvector, any angle
+    let plain = if thorough { 2500 } else { 50 };
+    for k in 0..plain {
+        let n = [2usize, 3, 4, 2, 3, 4, 5, 6][k % 8];
+        let f = WideFamily::new(rng, n);
+        let deg = match rng.below(4) {
+            0 => rng.uniform(80.0, 89.0),
+            1 => *rng.pick(&[60.0, 75.0, 80.0, 83.0, 85.0, 87.0, 88.0, 89.0]),
+            _ => rng.uniform(60.0, 89.0),
+        };
+        let a = f.at(f64::to_radians(deg));
+        let es = tolerance(rng);
+        emit_req(emit, "accw", n, n, &a, es);
+    }
+    // the same with the angle tuned to a tie |r_k| = |r_{k-1}| across the zero crossing, closer than the tolerance
+    // (mostly) or a little wider than it
+    let tuned = if thorough { 1500 } else { 45 };
+    for k in 0..tuned {
+        let n = [2usize, 3, 4, 2, 3, 4, 5][k % 7];
+        let f = WideFamily::new(rng, n);
+        let es = tolerance(rng);
+        let target = match rng.below(8) {
+            0 => es * rng.uniform(1.5, 10.0),
+            1 => 1e-14,
+            _ => (es * 10f64.powf(rng.uniform(-3.0, -0.3))).max(1e-14),
+        };
+        if let Some((_, phi)) = crossing_tie(rng, &f, target, false) {
+            let a = f.at(phi);
+            emit_req(emit, "accw", n, n, &a, es);
+        }
+    }
+    // the angle tuned so that one Rayleigh quotient lands on zero: |r_k| = 1e-6..1e-16 of |r_{k-1}| (the relative
+    // change is then huge, and 1 in the next pass)
+    for k in 0..(if thorough { 500 } else { 15 }) {
+        let n = [2usize, 3, 4, 2, 3][k % 5];
+        let f = WideFamily::new(rng, n);
+        let es = tolerance(rng);
+        let target = 10f64.powf(rng.uniform(-16.0, -6.0));
+        if let Some((_, phi)) = crossing_tie(rng, &f, target, true) {
+            let a = f.at(phi);
+            emit_req(emit, "accw", n, n, &a, es);
+        }
+    }
+}
+
 /// The requests that run into the iteration cap cost a thousand times more than the others and come in runs
 /// (termination half, integer matrices with complex or +-lambda pairs); `check` splits the batch into contiguous
 /// slices, one per core, so the requests are emitted in a strided order that gives every slice the same mix.
@@ -741,6 +1106,10 @@ fn generate_in_order(seed: u64, thorough: bool, emit: &mut dyn FnMut(String)) {
     {
         let mut r2 = Rng::new(seed ^ 0xC13_0001);
         hardening(&mut r2, thorough, emit);
+    }
+    {
+        let mut r4 = Rng::new(seed ^ 0xC13_0004);
+        hardening4(&mut r4, thorough, emit);
     }
     let mut rng = Rng::new(seed ^ 0xC13);
     // shape half: every non-square or empty shape in 0..4 x 0..4 and a few larger ones
